@@ -82,7 +82,18 @@ fn coll_strategy(max_m: usize, max_n: u64, work: u64) -> impl Strategy<Value = C
         if clip == 0 {
             ss.q = (ss.q / 3).max(2);
         }
-        let wide = wide || ss.q + 1 > 65534;
+        // one case in sixteen: base extremely close to 1 with a large rate and the full u32 register range
+        // (register values of order 1e9: the upper half of the u32 range is reachable only here)
+        let extreme = clip == 1;
+        if extreme {
+            // choose the rate, then the base so that typical register values ln(a n)/(b-1) land between 1e9 and 5e9:
+            // around and above 2^31 and up to the u32 limit (clipping at q+1 = 2^32-1 included)
+            let aa = 10f64.powf(3.0 + ((seed >> 24) % 5000) as f64 / 1000.0);
+            let target = 1.0e9 + ((seed >> 8) % 4000) as f64 * 1.0e6;
+            let bb = 1.0 + ((aa * n.max(2.0)).ln() / target).max(1.0e-10);
+            ss = SsParams { b: F(bb), a: F(aa), q: u32::MAX as u64 - 1 };
+        }
+        let wide = wide || extreme || ss.q + 1 > 65534;
         // trials from a work budget (item insertions), never from the clock
         let per_trial = (only_a + only_b + 2 * both).max(1) * (1 + (m as u64) / 64);
         let trials = (work / per_trial).clamp(400, 20_000);
@@ -146,7 +157,8 @@ pub fn eval_coll(c: &CollCase) -> Eval {
     Ok(Report::new(p > 0.0 && p < 1.0 && c.only_a + c.both > 0 && c.only_b + c.both > 0)
         .trials(c.trials)
         .resolution(t.tol)
-        .class_if(!documented, "small-q-clipping-exercised")
+        .class_if(!documented && c.ss.b.0 - 1.0 > 1e-6, "small-q-clipping-exercised")
+        .class_if(c.ss.b.0 - 1.0 < 1e-6, "b-1<1e-6-large-rate-u32-range")
         .class_if(c.both == 0, "disjoint")
         .class_if(c.only_a == 0 || c.only_b == 0, "nested-or-equal")
         .class_if(c.only_a + c.both == 0 || c.only_b + c.both == 0, "one-side-empty")
